@@ -325,6 +325,8 @@ func areaCff(c *Ctx) {
 	c13GenFDSelect(c, n/5+1)
 	c13GenFonts(c, n/8+1)
 	c13GenWidths(c, n/8+1)
+	c13GenEncoding(c, n/6+1)
+	c13GenStrings(c, n/20+1)
 }
 
 // mutate returns a damaged copy of data (truncation, bit flip, byte overwrite, count inflation).
@@ -1318,6 +1320,17 @@ func init() {
 	}
 	// the real writer's bytes (the generator put them into the case line) read by the Lean spec reader
 	ops["cff.file.spec"] = c13Want
+	// the real writer against the Lean model of Write (charstrings and chosen widths are inputs of the
+	// model; the real code recomputes them)
+	ops["cff.file.model"] = func(f Fields) string {
+		return c13Guard(func() string {
+			var buf bytes.Buffer
+			if err := c13ParseFont(f["font"]).build().Write(&buf); err != nil {
+				return c13Err(err)
+			}
+			return "ok:" + hx(buf.Bytes())
+		})
+	}
 	// the real writer: bytes, for the generator
 	ops["cff.file.write"] = func(f Fields) string {
 		return c13Guard(func() string {
@@ -1374,6 +1387,7 @@ func c13GenFonts(c *Ctx, n int) {
 	r := c.Rng
 	for i := 0; i < n; i++ {
 		f := &c13Font{name: c13RandString(r, 1, 20), ulPos: -100, ulThick: 50}
+		encKind := ""
 		for j := range f.strs {
 			switch r.Intn(4) {
 			case 0:
@@ -1478,6 +1492,64 @@ func c13GenFonts(c *Ctx, n int) {
 			}
 			f.fds = make([]int, ng)
 			c.Stat("file_kind", "simple")
+			if r.Chance(1, 2) && ng >= 2 && ng <= 300 {
+				// a custom encoding (never equal to the standard/expert one: glyph 1 has a private name)
+				f.names[1] = fmt.Sprintf("c13.%d", i)
+				ex := 0
+				if r.Bool() {
+					ex = r.Range(1, 5)
+				}
+				f.encoding = c13RandEncoding(r, ng, r.Intn(3), ex)
+				has := false
+				for _, g := range f.encoding {
+					if g != 0 {
+						has = true
+					}
+				}
+				if !has {
+					f.encoding[r.Range(0, 255)] = 1
+				}
+				c.Stat("file_encoding", "custom")
+			} else if r.Chance(1, 3) && ng >= 2 {
+				// the predefined Standard or Expert encoding, given explicitly
+				expert := r.Bool()
+				pool := c13StdNames
+				if expert {
+					pool = cff.VerifExpertNames()
+				}
+				used := map[string]bool{".notdef": true}
+				for g := 1; g < ng; g++ {
+					if r.Chance(2, 3) {
+						nm := Pick(r, pool)
+						if !used[nm] {
+							f.names[g] = nm
+						}
+					}
+					if used[f.names[g]] {
+						f.names[g] = fmt.Sprintf("u%d.%d", i, g)
+					}
+					used[f.names[g]] = true
+				}
+				gl := make([]*cff.Glyph, ng)
+				for g := range gl {
+					gl[g] = &cff.Glyph{Name: f.names[g]}
+				}
+				var ev []glyph.ID
+				if expert {
+					ev = cff.VerifExpertEncoding(gl)
+					encKind = "exp"
+				} else {
+					ev = cff.StandardEncoding(gl)
+					encKind = "std"
+				}
+				f.encoding = make([]int, 256)
+				for cidx, g := range ev {
+					f.encoding[cidx] = int(g)
+				}
+				c.Stat("file_encoding", map[bool]string{true: "expert (explicit)", false: "standard (explicit)"}[expert])
+			} else {
+				c.Stat("file_encoding", "standard (none given)")
+			}
 		}
 		c.Stat("file_private_dicts", bucket(np))
 		c.Stat("file_glyphs", bucket(ng))
@@ -1505,10 +1577,26 @@ func c13GenFonts(c *Ctx, n int) {
 		}
 		out := Exec("cff.file.write font=" + desc)
 		if strings.HasPrefix(out, "ok:") {
-			c.Case(Direct, "cff.file.spec", "file="+out[3:]+" want="+desc, ng > 1)
+			want := desc
+			if encKind != "" {
+				// the spec reader does not know the predefined encodings: compare everything else
+				want = strings.SplitN(desc, ";enc:", 2)[0]
+			}
+			c.Case(Direct, "cff.file.spec", "file="+out[3:]+" want="+want, ng > 1)
 			c.Stat("file_bytes", bucket(len(out[3:])/2))
 		} else {
 			c.Stat("file_write", out)
+		}
+		// whole-file correspondence with the model of Write
+		if cs, dw, nw, err := cff.VerifEncodeCharStrings(f.build()); err == nil && !math.IsInf(nw, 0) {
+			line := fmt.Sprintf("font=%s cs=%s dw=%d nw=%d", desc, c13ShowBlobs(cs), int32(dw), int32(nw))
+			if encKind != "" {
+				line += " enckind=" + encKind
+			}
+			res := c.Case(Verdict, "cff.file.model", line, ng > 1)
+			c.Stat("file_model", c13OutcomeClass(res))
+		} else {
+			c.Stat("file_model", "skipped (all widths equal: nominal width is +Inf)")
 		}
 	}
 }
@@ -1603,4 +1691,277 @@ func c13AtoF(s string) float64 {
 		return math.NaN()
 	}
 	return x
+}
+
+// ---------------------------------------------------------------------------------------
+// encodings
+
+func init() {
+	ops["cff.encoding.enc"] = func(f Fields) string {
+		return c13Guard(func() string {
+			var enc []glyph.ID
+			for _, g := range f.Ints("enc") {
+				enc = append(enc, glyph.ID(g))
+			}
+			out, err := cff.VerifEncodeEncoding(enc, c13Int32s(f.Ints("names")))
+			if err != nil {
+				return c13Err(err)
+			}
+			return "ok:" + hx(out)
+		})
+	}
+	ops["cff.encoding.read"] = func(f Fields) string {
+		return c13Guard(func() string {
+			res, err := cff.VerifReadEncoding(f.Hex("data"), c13Int32s(f.Ints("charset")))
+			if err != nil {
+				return c13Err(err)
+			}
+			out := make([]int, len(res))
+			for i, g := range res {
+				out[i] = int(g)
+			}
+			return "ok:" + ints(out)
+		})
+	}
+	ops["cff.encoding.spec"] = c13Want
+}
+
+// c13RandEncoding builds an encoding vector satisfying the documented rule: the encoded glyphs
+// are 1..k; every glyph gets one code, some get more.  style: 0 random codes, 1 consecutive
+// runs, 2 one run.
+func c13RandEncoding(r *Rng, ng int, style int, extraCodes int) []int {
+	enc := make([]int, 256)
+	k := r.Range(0, ng-1)
+	if k > 256 {
+		k = 256
+	}
+	free := make([]int, 256)
+	for i := range free {
+		free[i] = i
+	}
+	switch style {
+	case 0: // random distinct codes
+		for i := len(free) - 1; i > 0; i-- {
+			j := r.Intn(i + 1)
+			free[i], free[j] = free[j], free[i]
+		}
+		for g := 1; g <= k; g++ {
+			enc[free[g-1]] = g
+		}
+		free = free[k:]
+	case 1: // a few runs of consecutive codes
+		g := 1
+		code := r.Range(0, 40)
+		for g <= k && code < 256 {
+			run := r.Range(1, 30)
+			for j := 0; j < run && g <= k && code < 256; j++ {
+				enc[code] = g
+				g++
+				code++
+			}
+			code += r.Range(1, 5)
+		}
+		// glyphs that did not fit are left unencoded only at the end: keep contiguity
+		for ; g <= k; g++ {
+			placed := false
+			for c := 255; c >= 0; c-- {
+				if enc[c] == 0 {
+					enc[c] = g
+					placed = true
+					break
+				}
+			}
+			if !placed {
+				break
+			}
+		}
+		free = free[:0]
+		for c := 0; c < 256; c++ {
+			if enc[c] == 0 {
+				free = append(free, c)
+			}
+		}
+	case 2: // one run
+		start := r.Range(0, 256-k)
+		for g := 1; g <= k; g++ {
+			enc[start+g-1] = g
+		}
+		free = free[:0]
+		for c := 0; c < 256; c++ {
+			if enc[c] == 0 {
+				free = append(free, c)
+			}
+		}
+	}
+	// multiply-encoded glyphs
+	for e := 0; e < extraCodes && len(free) > 0 && k > 0; e++ {
+		i := r.Intn(len(free))
+		enc[free[i]] = r.Range(1, k)
+		free = append(free[:i], free[i+1:]...)
+	}
+	return enc
+}
+
+func c13GenEncoding(c *Ctx, n int) {
+	r := c.Rng
+	for i := 0; i < n; i++ {
+		ng := r.Range(1, 40)
+		switch {
+		case i%15 == 14:
+			ng = r.Range(200, 300)
+		case i%6 == 0:
+			ng = r.Range(1, 6)
+		}
+		// distinct SIDs, .notdef first
+		names := []int{0}
+		used := map[int]bool{0: true}
+		for len(names) < ng {
+			s := r.Range(1, 700)
+			if used[s] {
+				continue
+			}
+			used[s] = true
+			names = append(names, s)
+		}
+		style := r.Intn(3)
+		extra := 0
+		if r.Chance(1, 2) {
+			extra = r.Range(1, 6)
+		}
+		enc := c13RandEncoding(r, ng, style, extra)
+		inDomain := true
+		if i%12 == 11 {
+			inDomain = false
+			switch r.Intn(4) {
+			case 0: // a hole: drop all codes of one encoded glyph that is not the last
+				mx := 0
+				for _, g := range enc {
+					if g > mx {
+						mx = g
+					}
+				}
+				if mx >= 2 {
+					drop := r.Range(1, mx-1)
+					for cidx, g := range enc {
+						if g == drop {
+							enc[cidx] = 0
+						}
+					}
+				}
+			case 1: // glyph id beyond the glyph names (supplement index panic, or plain)
+				enc[r.Intn(256)] = ng + r.Range(0, 3)
+			case 2:
+				enc = enc[:r.Range(0, 255)]
+			case 3: // 256 glyphs with non-consecutive codes: more than 255 segments
+				names = names[:1]
+				for s := 1; s <= 256; s++ {
+					names = append(names, 1000+s)
+				}
+				for cidx := range enc {
+					enc[cidx] = (cidx*7)%256 + 1
+				}
+			}
+		}
+		nCodes, nExtra, mx := 0, 0, 0
+		seen := map[int]bool{}
+		for _, g := range enc {
+			if g == 0 {
+				continue
+			}
+			nCodes++
+			if seen[g] {
+				nExtra++
+			}
+			seen[g] = true
+			if g > mx {
+				mx = g
+			}
+		}
+		c.Stat("encoding_domain", map[bool]string{true: "inside", false: "outside"}[inDomain])
+		c.Stat("encoding_supplement", map[bool]string{true: "with", false: "without"}[nExtra > 0])
+		c.Stat("encoding_glyphs_encoded", bucket(mx))
+		out := c.Case(Verdict, "cff.encoding.enc", fmt.Sprintf("enc=%s names=%s", ints(enc), ints(names)), mx > 0)
+		if !strings.HasPrefix(out, "ok:") {
+			c.Stat("encoding_format", c13OutcomeClass(out))
+			continue
+		}
+		data := c13HexMust(out[3:])
+		c.Stat("encoding_format", fmt.Sprintf("%d", data[0]&127))
+		if !inDomain {
+			continue
+		}
+		rest := r.Bytes(r.Intn(3))
+		file := append(append([]byte(nil), data...), rest...)
+		got := c.Case(Verdict, "cff.encoding.read", fmt.Sprintf("data=%s charset=%s", hx(file), ints(names)), mx > 0)
+		if got == "ok:"+ints(enc) {
+			c.Stat("encoding_read_back", "same")
+		} else {
+			c.Stat("encoding_read_back", "DIFFERENT")
+		}
+		c.Case(Direct, "cff.encoding.spec", fmt.Sprintf("data=%s charset=%s want=%s", hx(file), ints(names), ints(enc)), mx > 0)
+		for k := 0; k < 3; k++ {
+			m := c13Mutate(r, file)
+			cs := names
+			if r.Chance(1, 4) && len(cs) > 1 {
+				cs = cs[:r.Range(1, len(cs))]
+			}
+			res := c.Case(Verdict, "cff.encoding.read", fmt.Sprintf("data=%s charset=%s", hx(m), ints(cs)), true)
+			c.Stat("encoding_read_mutated", c13OutcomeClass(res))
+		}
+	}
+}
+
+// ---------------------------------------------------------------------------------------
+// string table
+
+func init() {
+	ops["cff.strings.lookup"] = func(f Fields) string {
+		return c13Guard(func() string {
+			sids, custom := cff.VerifStringLookup(c13ParseHexList(f["names"]))
+			out := make([]int, len(sids))
+			for i, s := range sids {
+				out[i] = int(s)
+			}
+			return ints(out) + ";" + c13HexList(custom)
+		})
+	}
+}
+
+func c13GenStrings(c *Ctx, n int) {
+	r := c.Rng
+	std := cff.VerifStdStrings()
+	for i := 0; i < n; i++ {
+		k := r.Range(1, 12)
+		var names []string
+		for j := 0; j < k; j++ {
+			switch r.Intn(4) {
+			case 0:
+				names = append(names, Pick(r, std))
+				c.Stat("strings_kind", "standard")
+			case 1:
+				names = append(names, c13RandString(r, 1, 10))
+				c.Stat("strings_kind", "custom")
+			case 2:
+				if len(names) > 0 {
+					names = append(names, Pick(r, names))
+					c.Stat("strings_kind", "repeated")
+				}
+			case 3:
+				names = append(names, Pick(r, []string{".notdef", "Semibold", "Semibol", "space", "Black", "001.003"}))
+				c.Stat("strings_kind", "table ends")
+			}
+		}
+		if len(names) == 0 {
+			names = []string{"a"}
+		}
+		c.Case(Verdict, "cff.strings.lookup", "names="+c13HexList(names), true)
+	}
+	// the whole standard table: SID i <-> string i (duplicates in the table would show here)
+	for lo := 0; lo < len(std); lo += 60 {
+		hi := lo + 60
+		if hi > len(std) {
+			hi = len(std)
+		}
+		c.Case(Verdict, "cff.strings.lookup", "names="+c13HexList(std[lo:hi]), true)
+	}
 }
